@@ -72,6 +72,13 @@ def run(ctx: Ctx) -> None:
     wantl = {"client": "_get_trusted_value(b'x-forwarded-for', headers, self.trusted_hops)", "scheme": "_get_trusted_value(b'x-forwarded-proto', headers, self.trusted_hops)", "host": "_get_trusted_value(b'x-forwarded-host', headers, self.trusted_hops)"}
     ctx.check("C20.R2", wp, "legacy mode reads x-forwarded-for/proto/host with the configured hop count", legacy == wantl and "_get_trusted_value(b'forwarded', headers, self.trusted_hops)" in norm(pf), f"legacy lookups: {legacy}", pf)
 
+    modern_if = [n for n in walk_local(pf) if isinstance(n, ast.If) and "self.mode == 'modern'" in norm(n.test)]
+    legacy_calls = [c for c in calls(pf) if call_name(c) == "_get_trusted_value" and "x-forwarded" in norm(c)]
+    ok = len(modern_if) == 1 and len(legacy_calls) == 3 and all(any(c is x for st in modern_if[0].orelse for x in ast.walk(st)) for c in legacy_calls)
+    inits = {dotted(n.target if isinstance(n, ast.AnnAssign) else n.targets[0]): norm(n.value) for n in walk_local(pf) if isinstance(n, (ast.AnnAssign, ast.Assign)) and getattr(n, "value", None) is not None and (dotted(n.target if isinstance(n, ast.AnnAssign) else n.targets[0]) in ("client", "scheme", "host")) and n.lineno < (modern_if[0].lineno if modern_if else 0)}
+    ok = ok and inits == {"client": "None", "scheme": "None", "host": "None"}
+    ctx.check("C20.R2", wp, "legacy X-Forwarded-* headers are consulted only when the modern Forwarded header is not used; fields start as None", ok, "in modern mode a field missing from the trusted Forwarded element would be filled from client-controllable X-Forwarded-* headers", modern_if[0] if modern_if else pf)
+
     # ---- R3
     dm = repo.func("middleware.dispatcher", "_DispatcherMiddleware.__call__")
     wd = "middleware.dispatcher:_DispatcherMiddleware.__call__"
@@ -93,6 +100,9 @@ def run(ctx: Ctx) -> None:
     ok = len(lf) == 1 and ("scope['type'] == 'lifespan'", True) in guard_atoms(lf[0])
     ctx.check("C20.R3", wd, "lifespan scopes go to the fan-out", ok, "lifespan must be fanned out, not routed by path", dm)
 
+    di = repo.func("middleware.dispatcher", "_DispatcherMiddleware.__init__")
+    st_ = [n for n in walk_local(di) if isinstance(n, ast.Assign) and dotted(n.targets[0]) == "self.mounts"]
+    ctx.check("C20.R3", "middleware.dispatcher:_DispatcherMiddleware.__init__", "mount table stored as given (order preserved)", len(st_) == 1 and norm(st_[0].value) == "mounts", f"self.mounts = {[norm(x.value) for x in st_]}: re-ordering the table changes which mount is the FIRST match", st_[0] if st_ else di)
     # ---- R4
     for cls in ("AsyncioDispatcherMiddleware", "TrioDispatcherMiddleware"):
         sd = repo.func("middleware.dispatcher", f"{cls}.send")
